@@ -292,10 +292,18 @@ func propFaults(t *rapid.T) {
 	if fault == 6 {
 		kit.WaitUntil(10*time.Second, func() bool { return probe.Terminated("tgt", tgt.pid) })
 	} else {
-		kit.WaitUntil(10*time.Second, func() bool {
+		noticed := kit.WaitUntil(10*time.Second, func() bool {
 			_, err := s.a.Network().Node(bname)
 			return err != nil
 		})
+		if !noticed && (fault == 4 || fault == 5) {
+			// a cut link is re-dialled by the side that opened it; when that happens before the
+			// other side has given the connection up, the connection survives the cut on both
+			// sides - then nothing was lost and nothing has to be reported
+			if _, err := b.Network().Node(s.a.Name()); err == nil {
+				t.Skip("the connection survived the cut (link re-dialled): nothing to detect")
+			}
+		}
 	}
 	for _, o := range observers {
 		p := o.pid
@@ -333,6 +341,9 @@ func propFaults(t *rapid.T) {
 		expect := 1
 		if fault == 6 && o.kind == 4 {
 			expect = 0 // the node is still connected
+			if _, err := s.a.Network().Node(bname); err != nil {
+				continue // unless the connection did go down for a reason of its own (not part of this case)
+			}
 		}
 		if len(o.reasons) != expect {
 			problems = append(problems, fmt.Sprintf("%s: request succeeded, fault %d: received %d notifications %v, want %d", what, fault, len(o.reasons), o.notes, expect))
